@@ -102,6 +102,20 @@ def emptyCond (d : Desc) : Nat → Nat → Val → Option Bool
     | some (.dict _) => (match v with | .arr es => some (!es.isEmpty) | _ => none)
     | none => none
 
+/-! ### hidden fields
+A value produced by the JSON reader of a TL2-enabled type can hold a field whose TL1 mask bit is set while its hidden
+TL2 presence bit is clear (the JSON/TL2 writers skip it, the TL1 writer writes it). Such a field is stored as
+`some (hidden v)`; no reader of TL1 bytes produces it. -/
+
+def hiddenTag : Nat := 2 ^ 32
+def hidden (v : Val) : Val := .union hiddenTag v
+def isHidden : Val → Bool
+  | .union i _ => i == hiddenTag
+  | _ => false
+def unhide : Val → Val
+  | .union i v => if i == hiddenTag then v else .union i v
+  | v => v
+
 /-! ### writer -/
 
 abbrev Wj := Nat → List Nat → Val → Except CErr Json     -- type index, nat args, value
@@ -130,7 +144,7 @@ def writePrimJ (k : PrimK) (v : Val) : Except CErr Json :=
 /-- presence test used by the JSON writer for a masked field -/
 def presentJ (f : Field) (all : List (Option Val)) (params : List Nat) (v : Option Val) : Option Bool :=
   match f.tl2bit with
-  | some _ => some v.isSome
+  | some _ => some (match v with | some x => !isHidden x | none => false)
   | none => fieldPresent f all params
 
 def writeFieldsJ (d : Desc) (fuel : Nat) (wj : Wj) (s : StructD) (params : List Nat) (all : List (Option Val)) :
@@ -226,7 +240,8 @@ def writeJson (d : Desc) : Nat → Wj
             | none => .error .desc
           | _, _ => .error .shape
         else
-          (writeFieldsJ d fuel (writeJson d fuel) s params fs s.fields fs).map Json.obj
+          -- mask / size lookups see the stored values of hidden fields; presence tests see the raw entries
+          (writeFieldsJ d fuel (writeJson d fuel) s params (fs.map (·.map unhide)) s.fields fs).map Json.obj
       | _ => .error .shape
     | some (.union u) =>
       match v with
@@ -497,31 +512,25 @@ def readStructJ (d : Desc) (fuel : Nat) (rj : Rj) (s : StructD) (params : List N
           | .ok rest =>
             let f := sl.f
             let tl1 := match fieldPresent f vals1 params with | some b => b | none => false
-            let pres := if f.tl2bit.isSome then t else tl1
-            if fieldOmitted s f then .ok (none :: rest)
-            else if f.isBit then .ok ((if pres then some (.struct []) else none) :: rest)
-            else if f.natArgs.isEmpty then
-              -- independent field: value decided in pass 1 (`#` fields possibly updated by the mask propagation)
-              if f.mask.isSome || f.tl2bit.isSome then .ok ((if pres then v else none) :: rest)
-              else .ok (v :: rest)
-            else
-              match natArgVals vals1 params f.natArgs with
-              | none => .error .desc
-              | some na =>
-                if sl.presented then
-                  match rj f.ty na sl.j with
-                  | .error e => .error e
-                  | .ok x => .ok ((if f.mask.isSome || f.tl2bit.isSome then (if pres then some x else none) else some x) :: rest)
-                else if f.mask.isSome || f.tl2bit.isSome then
-                  if pres then
-                    match rj f.ty na none with
-                    | .error e => .error e
-                    | .ok x => .ok (some x :: rest)
-                  else .ok (none :: rest)
-                else
-                  match rj f.ty na none with
-                  | .error e => .error e
-                  | .ok x => .ok (some x :: rest)
+            if fieldOmitted s f then .ok (none :: rest) else
+            -- the value Go holds in the field (relevant when the field is present for TL1 or for TL2)
+            let actual : Except CErr (Option Val) :=
+              if f.isBit then .ok (some (.struct []))
+              else if f.natArgs.isEmpty then .ok v
+              else
+                match natArgVals vals1 params f.natArgs with
+                | none => .error .desc
+                | some na =>
+                  if sl.presented then (rj f.ty na sl.j).map some
+                  else if (if f.tl2bit.isSome then t else if f.mask.isSome then tl1 else true) then (rj f.ty na none).map some
+                  else (zeroVal d fuel f.ty).map some
+            match actual with
+            | .error e => .error e
+            | .ok x =>
+              if f.tl2bit.isSome then
+                .ok ((if t then x else if tl1 then x.map hidden else none) :: rest)
+              else if f.mask.isSome then .ok ((if tl1 then x else none) :: rest)
+              else .ok (x :: rest)
         | _, _, _ => .error .desc
       (fin slots tl2set vals1).map Val.struct
 
